@@ -20,6 +20,7 @@ func c03(r *core.Report) {
 	p := r.Prog
 	c03MethodSet(r)
 	c03NullPresence(r)
+	c03RequiredKeys(r)
 	r.Assumption("values survive encoding/json, the YAML reader/writer and custom scalar codecs (Types, AdditionalProperties): not decided")
 
 	type tyinfo struct {
@@ -1127,6 +1128,119 @@ func c03NullPresence(r *core.Report) {
 		}
 		if n == 0 {
 			core.Fail("no UnmarshalJSON found")
+		}
+	})
+}
+
+// c03RequiredKeys: a key whose absence the type's own Validate rejects is written whenever the
+// object is, also when its value is empty: `"scopes": {}` is a conforming flow, the same flow without
+// the key is not, and the writer that leaves out empty collections turns one into the other.
+func c03RequiredKeys(r *core.Report) {
+	p := r.Prog
+	r.RunRule("C03.requiredkeys", "what Validate requires to be there is written unconditionally: for every model struct T of openapi3/openapi2 whose Validate returns an error under `recv.F == nil`, T's MarshalYAML stores the JSON key of F into the map it builds outside any condition (not under `len(x) != 0` or `x != nil`) — an empty-but-present value must come back as written, or the reloaded document no longer validates", 1, func() {
+		n := 0
+		for _, rel := range []string{"openapi3", "openapi2"} {
+			info := p.Pkg(rel).TypesInfo
+			for _, d := range p.AllDecls(rel) {
+				if d.Body == nil || d.Recv == nil || d.Name.Name != "Validate" {
+					continue
+				}
+				recv := recvObj(info, d)
+				if recv == nil {
+					continue
+				}
+				rn := core.NamedOf(recv.Type())
+				st := core.StructOf(rn)
+				if rn == nil || st == nil {
+					continue
+				}
+				for _, stmt := range d.Body.List {
+					ifs, ok := stmt.(*ast.IfStmt)
+					if !ok || ifs.Init != nil || len(ifs.Body.List) != 1 {
+						continue
+					}
+					be, ok := ast.Unparen(ifs.Cond).(*ast.BinaryExpr)
+					if !ok || be.Op != token.EQL || !core.IsNil(info, be.Y) {
+						continue
+					}
+					sel, ok := ast.Unparen(be.X).(*ast.SelectorExpr)
+					if !ok {
+						continue
+					}
+					if id, ok := ast.Unparen(sel.X).(*ast.Ident); !ok || info.ObjectOf(id) != recv {
+						continue
+					}
+					ret, ok := ifs.Body.List[0].(*ast.ReturnStmt)
+					if !ok || len(ret.Results) == 0 || core.IsNil(info, ret.Results[len(ret.Results)-1]) {
+						continue
+					}
+					// the JSON key of the field
+					jsonKey := ""
+					for i := 0; i < st.NumFields(); i++ {
+						if st.Field(i).Name() == sel.Sel.Name {
+							jsonKey, _ = core.JSONTag(st.Tag(i))
+						}
+					}
+					my := core.HasMethod(rn, "MarshalYAML")
+					if jsonKey == "" || my == nil {
+						continue
+					}
+					md := p.Decl(my)
+					if md == nil || md.Body == nil {
+						continue
+					}
+					n++
+					key := fmt.Sprintf("requiredkeys:%s.%s.%s", rel, rn.Obj().Name(), jsonKey)
+					state := "missing"
+					ast.Inspect(md.Body, func(nd ast.Node) bool {
+						as, ok := nd.(*ast.AssignStmt)
+						if !ok || len(as.Lhs) != 1 {
+							return true
+						}
+						ix, ok := ast.Unparen(as.Lhs[0]).(*ast.IndexExpr)
+						if !ok {
+							return true
+						}
+						if k, isStr := core.ConstStr(info, ix.Index); !isStr || k != jsonKey {
+							return true
+						}
+						// unconditional: a statement of the function body itself
+						top := false
+						for _, bs := range md.Body.List {
+							if bs == ast.Stmt(as) {
+								top = true
+							}
+						}
+						if !top {
+							// under `true`, or under the nil test of the value itself: an empty value still passes
+							var inner *ast.IfStmt
+							for _, anc := range core.PathTo(md.Body, as) {
+								if ifs, ok := anc.(*ast.IfStmt); ok {
+									inner = ifs
+								}
+							}
+							if inner != nil {
+								if c, isConst := constBool(info, inner.Cond); isConst && c {
+									top = true
+								}
+								if be, ok := ast.Unparen(inner.Cond).(*ast.BinaryExpr); ok && be.Op == token.NEQ && core.IsNil(info, be.Y) {
+									top = true
+								}
+							}
+						}
+						if top {
+							state = "ok"
+						} else if state != "ok" {
+							state = "conditional at " + p.Pos(as.Pos())
+						}
+						return true
+					})
+					r.Check(state == "ok", key, p.Pos(md.Pos()), "written whenever the object is", fmt.Sprintf("%s.Validate rejects a nil %s, but %s.MarshalYAML writes %q only under a condition (%s): an object that has the key with an empty value is written without it, and the document that comes back fails validation (`field '%s' is missing`-style) although the input passed", rn.Obj().Name(), sel.Sel.Name, rn.Obj().Name(), jsonKey, state, jsonKey))
+				}
+			}
+		}
+		if n == 0 {
+			core.Fail("no required-non-nil field with a MarshalYAML found")
 		}
 	})
 }
